@@ -85,11 +85,12 @@ CHECKS = {
    text=("CAB: theorems, generic over the stream decoders' counting law, that extract never hands more than the declared length to the output (any input, strict or salvage, any cached state) "
          "and that in strict mode OK implies exactly the declared length; the counting law is proved for stored folders and is an explicit hypothesis for MSZIP/Quantum/LZX. "
          "CHM and OAB have no theorem yet. Everything is validated by the written-vs-declared oracle on the implementation (well-formed, malformed, fixtures, short writes, salvage) and model agreement."
-         " CHM: for every file content and section-0 member extract writes at most the declared length, OK means exactly the declared bytes of the file (C07Chm)."),
+         " CHM: for every file content and section-0 member extract writes at most the declared length, OK means exactly the declared bytes of the file (C07Chm)."
+         " The counting law itself is now a theorem for MSZIP and LZX (C07Decoders: every source, fuel, state, request; written <= asked, OK => exactly asked), so CAB written <= declared holds for stored/MSZIP/LZX folders, CHM compressed members and OAB files and patches with no decoder hypothesis; Quantum's law and the CAB read-error law remain hypotheses."),
    note=PROOF_NOTE, technique="Lean 4 theorems (case analysis over cabd_extract's phases + induction for the stored decoder) + written/declared/status oracle on the implementation"),
  "C08": dict(category="proof",
    text=("CAB: theorems that whenever the cached decoder is not re-usable for a request (other folder, backward seek, dead decoder) extract behaves exactly like a fresh instance, and C08_stored_any_order - for a stored folder ANY list of extract() calls on members inside the folder's data (forward through the cached decoder, backward through a rebuilt one, repeated) returns OK with exactly each member's bytes, the fresh-instance result. "
-         "For MSZIP/LZX/Quantum forward re-use needs the decoders' chunking law (not proved) and is covered by the oracle: in random histories (repetition, interleaved archives, damaged folders, two cabinets with a damaged second one) over CAB sets and CHM files, "
+         "MSZIP: the chunking law is a theorem (C08Mszip: a then b = a+b, same bytes and final state, both directions; any split; a decoder-level model of the re-use rule serves any request list in any order), lifted to cabd's decoder call; the walk through obtainDState/runPhases and the LZX/Quantum chunking laws are not proved. These are covered by the oracle: in random histories (repetition, interleaved archives, damaged folders, two cabinets with a damaged second one) over CAB sets and CHM files, "
          "every call is compared with the same member on a fresh decompressor; plus model/implementation agreement per call."),
    note=PROOF_NOTE, technique="Lean 4 theorems (cache decision of cabd_extract; invariant over call sequences for stored folders) + history-vs-fresh oracle + differential runs"),
  "C02": dict(category="proof",
@@ -98,7 +99,8 @@ CHECKS = {
          "Decoder-internal bounds, CHM/KWAJ/OAB parsing and call-sequence safety are validated, not proved: ASan+UBSan runs over malformed variants of generated archives of all five "
          "formats, the shipped crashers and guard-directed constructions, with model/implementation agreement on statuses. Found and repaired on the way: c13e5b8, 004b113, a66a89b."
          " Also: make_decode_table's acceptance rule (model Huff.accepts) is compared with the three instantiations on the ten shapes their callers use, and the same code-length vectors are fed through MSZIP and KWAJ LZH streams; found and repaired: 797f74d (use-after-free after joining a multi-folder cabinet with a PREV_AND_NEXT entry)."
-         " Memory safety is now a theorem on the decoder models: the out-of-bounds (null-dereference, shift-width, division, uninitialised-table) outcomes are unreachable for every input and every sequence of calls in the LZSS, KWAJ header, KWAJ LZH, MSZIP, LZX (under LenStable and stream position < 2^31) and Quantum decoders and in the CHM layer (readHeaders, fastFind: no fault at all; extract: only what the LZX decoder passes on)."),
+         " Memory safety is now a theorem on the decoder models: the out-of-bounds (null-dereference, shift-width, division, uninitialised-table) outcomes are unreachable for every input and every sequence of calls in the LZSS, KWAJ header, KWAJ LZH, MSZIP, LZX (under LenStable and stream position < 2^31) and Quantum decoders and in the CHM layer (readHeaders, fastFind: no fault at all; extract: only what the LZX decoder passes on)."
+         " CAB lift (C02CabLift): the feeder's own faults are only the two null dereferences of cabd_sys_read_block and none while it is live; Quantum/MSZIP folders have no oob/uninit/divZero/shiftWidth for every feeder state, stored folders no fault for any call sequence; the length announced to LZX is a read-closed invariant (LenStable over all feeder states is false, so the LZX lift is _partial: stated for the feeder with filtered announcements)."),
    note=PROOF_NOTE + " Sanitizers see heap/stack/global object bounds, not sub-object overflows inside one allocation.",
    technique="Lean 4 theorems on the block reader/feeder model + sanitizer-instrumented differential fuzzing of malformed inputs"),
  "C01": dict(category="proof",
